@@ -14,6 +14,7 @@ import (
 func TestMain(m *testing.M) {
 	if os.Getenv("VSIM_WORKER") != "" {
 		zzmain.HostMain = do
+		zzmain.Init()
 		os.Exit(zzmain.Main())
 	}
 	os.Exit(m.Run())
